@@ -200,7 +200,11 @@ def jobs(tier, seed):
             jj['extra'] = dict(join_lists=jl, join_dict_items=jd)
             out.append(jj)
     strs = [('S-22', ('s', 2), ('s', 2)), ('S-32', ('s', 3), ('s', 2)), ('LS', L(('s', 2), I()), L(('s', 2), ('s', 1))),
-            ('DS', D(('s', 2)), D(('s', 2)))]
+            ('DS', D(('s', 2)), D(('s', 2))),
+            # characters that need escaping inside JSON strings (quote, backslash, newline) in values and keys
+            ('SX-22', ('sc', 2, 'a"\\\n'), ('sc', 2, 'a"\\\n')), ('SX-12', ('sc', 1, 'a"\\'), ('sc', 2, 'a"\\')),
+            ('LSX', L(('sc', 2, 'a"\\'), I()), L(('sc', 2, 'a"\\'), I(2))),
+            ('DKX', ('dict', [(('sc', 1, 'a"\\'), I())]), ('dict', [(('sc', 1, 'a"\\'), I(2))]))]
     for name, A, B_ in strs:
         out.append(dict(fam=name, A=A, B=B_, dict='auto', list='on', weight=10, alpha=3, extra=dict(join_lists=False, join_dict_items=False)))
     return out
@@ -215,8 +219,8 @@ META = dict(functions=th.TREE_FUNCTIONS + ["graphtage.json.JSONFormatter / JSONL
                                           "removed = strike mark or red background, inserted = under-plus mark or green background, the cyan "
                                           "' -> ' is a separator; dangling commas are normalised ('separator placement aside')"],
             files=th.TREE_FILES + ["graphtage/json.py", "graphtage/printer.py", "graphtage/formatter.py"],
-            outside=["escaping of quotes / control / non-ASCII characters and documents that contain the marks themselves (json.dumps per "
-                     "character is C code)", "multiset and plist renderings"])
+            outside=["non-ASCII characters and documents that contain the marks themselves; strings longer than 3 characters", "multiset and "
+                     "plist renderings"])
 REGIONS = dict(mset_duplicates=lambda w, f: th.matcher_collapse_region(w))
 
 
